@@ -445,7 +445,9 @@ void runBehaviour(Ctx &ctx, const QString &caseId, const QJsonObject &b)
             fprintf(stderr, "iqin: unknown id kind %s\n", qPrintable(k));
             exit(2);
         }
-        lastId = id;
+        if (k != "pending") {
+            lastId = id;  // "dup" repeats the previous id that was not the pending request's (that case is "pending")
+        }
 
         QString payload = payloadXml(p, r);
         if (t == "error" && p != "none" && p != "text" && !p.contains("error", Qt::CaseInsensitive)) {
